@@ -35,10 +35,24 @@ CTORS = {
     'LFSaw': dict(rates=['ar', 'kr'], defaults=[440, 0], nouts=1),
     'Pan2': dict(rates=['ar', 'kr'], defaults=[None, 0, 1], nouts=2),
     'Clip': dict(rates=['ar', 'kr', 'ir'], defaults=[0, 0, 1], nouts=1),
+    'Delay1': dict(rates=['ar', 'kr'], defaults=[0], nouts=1),
+    # the delay-line family: .ar converts the signal input to audio rate (element-wise) before the
+    # expansion; the other defaults are not integers, so those positions are always given
+    'DelayN': dict(rates=['ar', 'kr'], defaults=[0, None, None], nouts=1, audio_in=0),
+    'DelayC': dict(rates=['ar', 'kr'], defaults=[0, None, None], nouts=1, audio_in=0),
+    'CombL': dict(rates=['ar', 'kr'], defaults=[0, None, None, None], nouts=1, audio_in=0),
+    'AllpassC': dict(rates=['ar', 'kr'], defaults=[0, None, None, None], nouts=1, audio_in=0),
+    'BufDelayN': dict(rates=['ar', 'kr'], defaults=[0, 0, None], nouts=1, audio_in=1),
+    'BufCombL': dict(rates=['ar'], defaults=[0, 0, None, None], nouts=1, audio_in=1),
+    'DelTapWr': dict(rates=['ar', 'kr'], defaults=[0, 0], nouts=1, audio_in=1),
 }
 PARAMS = {'SinOsc': ['freq', 'phase'], 'Saw': ['freq'], 'LFNoise0': ['freq'], 'Line': ['start', 'end', 'dur', 'done_action'],
           'XLine': ['start', 'end', 'dur', 'done_action'], 'Impulse': ['freq', 'phase'], 'LFSaw': ['freq', 'iphase'],
-          'Pan2': ['input', 'pos', 'level'], 'Clip': ['input', 'lo', 'hi']}
+          'Pan2': ['input', 'pos', 'level'], 'Clip': ['input', 'lo', 'hi'], 'Delay1': ['input'],
+          'DelayN': ['input', 'max_delay', 'delay_time'], 'DelayC': ['input', 'max_delay', 'delay_time'],
+          'CombL': ['input', 'max_delay', 'delay_time', 'decay_time'], 'AllpassC': ['input', 'max_delay', 'delay_time', 'decay_time'],
+          'BufDelayN': ['buf', 'input', 'delay_time'], 'BufCombL': ['buf', 'input', 'delay_time', 'decay_time'],
+          'DelTapWr': ['buf', 'input']}
 RATE = {'ar': 'audio', 'kr': 'control', 'ir': 'scalar'}
 METHODS = {'lag': ('Lag', 1, 'MLag'), 'lag2': ('Lag2', 1, 'MLag'), 'lag3': ('Lag3', 1, 'MLag'),
            'lagud': ('LagUD', 2, 'MDirect'), 'slew': ('Slew', 2, 'MDirect'), 'clip': ('Clip', 2, 'MClip'),
@@ -191,12 +205,15 @@ class Gen:
         arity = len(spec['defaults'])
         lo = 1 if spec['defaults'][0] is None else 0
         npos = self.rng.randint(lo, arity)
+        ai = spec.get('audio_in')
+        if ai is not None:
+            npos = ai if self.rng.random() < 0.12 else arity      # the signal input omitted (default 0.0) or all given
         depth = self.rng.choice([0, 1, 1, 2, 2, 3, 4])
         self.mylist = True
         args = [self.tree(pre, depth, self.CONST, empty=empty, strs=True) for _ in range(npos)]
         kwargs = {}
         for j in range(npos, arity):
-            if self.rng.random() < 0.3:
+            if (self.rng.random() < 0.3 and ai is None) or (ai is not None and j != ai):
                 kwargs[PARAMS[name][j]] = self.tree(pre, depth, self.CONST, empty=empty, strs=True)
         self.mylist = False
         return {'kind': 'ctor', 'pre': pre, 'cls': name, 'rate': self.rng.choice(spec['rates']), 'args': args, 'kwargs': kwargs}
@@ -446,6 +463,10 @@ def model_call1(case):
         for j in range(len(args), len(spec['defaults'])):
             nm = PARAMS[case['cls']][j]
             args.append(case['kwargs'][nm] if nm in case['kwargs'] else ['K', spec['defaults'][j]])
+        ai = spec.get('audio_in')
+        if ai is not None and case['rate'] == 'ar':
+            return 'audio_in_ctor %s %s %s [%s] %s [%s]' % (cid('DC', 'audio'), cid('K2A', 'audio'), cid(case['cls'], 'audio'),
+                                                           '; '.join(T(a) for a in args[:ai]), T(args[ai]), '; '.join(T(a) for a in args[ai + 1:]))
         return 'multi_new (new1_plain %s %d) [%s]' % (cid(case['cls'], RATE[case['rate']]), spec['nouts'], '; '.join(T(a) for a in args))
     if k in ('clbinop', 'clrbinop'):
         fn = 'cl_binop' if k == 'clbinop' else 'cl_rbinop'
@@ -608,6 +629,7 @@ def gen_cases(ctx):
     for _ in range(n):
         cases.append(A(g.ctor()))
         cases.append(A(g.ctor()))
+        cases.append(A(g.ctor()))
         cases.append(A(g.clbinop()))
         cases.append(A(g.clrbinop()))
         cases.append(A(g.method()))
@@ -670,7 +692,7 @@ def tag_violation(case, o):
     if o['err'] is not None:
         return None
     npre = len(case['pre'])
-    units = [u for u in o['units'][npre:] if u[0][0].split('/')[0] not in ('DC', 'Impulse')]
+    units = [u for u in o['units'][npre:] if u[0][0].split('/')[0] not in ('DC', 'Impulse', 'K2A')]
     if k == 'ctor':
         slots = list(case['args'])
         for j in range(len(slots), len(PARAMS[case['cls']])):
@@ -766,8 +788,8 @@ def correspond(ctx):
     bad, errs = fw.check_shards(ctx, 'mce', HEADER, items, BODY, shard=120)
     c.evaluations = len(cases)
     c.rule = ('random argument shapes (scalars incl. strings/None, tuples, lists and ChannelLists of lengths 0-4, nesting depth <= 3, '
-              'default-filled and keyword positions) given to 9 real UGen classes whose ar/kr/ir delegate directly to _multi_new '
-              '(incl. the two-output Pan2), to + * - and unary minus on ChannelLists and on UGens (both operand orders), to the '
+              'default-filled and keyword positions) given to 17 real UGen classes whose ar/kr/ir delegate to _multi_new directly '
+              '(incl. the two-output Pan2) or after converting the signal input to audio rate (delay-line family), to + * - and unary minus on ChannelLists and on UGens (both operand orders), to the '
               'ChannelList methods lag lag2 lag3 lagud slew clip fold wrap moddif range madd dup sum poll dpoll, to MulAdd.new, and to EVERY output constructor (Out ReplaceOut OffsetOut XOut LocalOut, .ar and .kr) with nested channel '
               'arrays and literal zeros; compared: the result tree (units by creation index and output channel, constants by value) '
               'and the complete list of units created in the SynthDef in creation order with their input vectors, or the exception '
